@@ -5,6 +5,12 @@ use scale_info::{
     TypeDefTuple, TypeDefVariant, TypeParameter, Variant,
 };
 
+/// `--small`: generate the smallest shapes only (used to look for a minimal failing input once a failure was seen)
+pub static SMALL: std::sync::atomic::AtomicBool = std::sync::atomic::AtomicBool::new(false);
+pub fn small() -> bool {
+    SMALL.load(std::sync::atomic::Ordering::Relaxed)
+}
+
 pub struct Rng(pub u64);
 impl Rng {
     pub fn new(seed: u64) -> Self {
@@ -41,6 +47,9 @@ const WORDS: &[&str] = &[
 ];
 
 pub fn string(r: &mut Rng) -> String {
+    if small() {
+        return (*r.pick(&["", "a", "b", "T"])).to_string();
+    }
     match r.below(10) {
         0..=5 => (*r.pick(WORDS)).to_string(),
         6 => {
@@ -59,6 +68,7 @@ pub fn string(r: &mut Rng) -> String {
     }
 }
 pub fn strings(r: &mut Rng, max: u64) -> Vec<String> {
+    let max = if small() { max.min(1) } else { max };
     let n = if r.chance(1, 2) { 0 } else { r.below(max + 1) };
     (0..n).map(|_| string(r)).collect()
 }
@@ -85,6 +95,7 @@ pub fn field(r: &mut Rng, idf: &mut dyn FnMut(&mut Rng) -> u32) -> Field<Portabl
     Field::new(name, idf(r).into(), tn, strings(r, 2))
 }
 pub fn fields(r: &mut Rng, idf: &mut dyn FnMut(&mut Rng) -> u32, max: u64) -> Vec<Field<PortableForm>> {
+    let max = if small() { max.min(2) } else { max };
     let n = r.below(max + 1);
     (0..n).map(|_| field(r, idf)).collect()
 }
@@ -121,7 +132,7 @@ pub fn typedef(r: &mut Rng, idf: &mut dyn FnMut(&mut Rng) -> u32, wild: bool) ->
 }
 pub fn ty(r: &mut Rng, idf: &mut dyn FnMut(&mut Rng) -> u32, wild: bool) -> Type<PortableForm> {
     let path = Path::from_segments_unchecked(strings(r, 3));
-    let np = if r.chance(1, 2) { 0 } else { r.below(4) };
+    let np = if r.chance(1, 2) { 0 } else { r.below(if small() { 2 } else { 4 }) };
     let params = (0..np)
         .map(|_| {
             let t = if r.chance(2, 3) { Some(idf(r).into()) } else { None };
